@@ -417,6 +417,10 @@ func runProperty(plan *PropertyPlan, tier string, seed int, verbose bool) int {
 		specs = keep
 	}
 	fmt.Printf("[%s] %d harnesses, tier=%s\n", plan.ID, len(specs), tier)
+	if len(specs) == 0 {
+		fmt.Println("BROKEN: no harness selected")
+		return 2
+	}
 	prog, byDir, pkgs, err := loadProgram(ws)
 	if err != nil {
 		fmt.Println("BROKEN: load:", err)
